@@ -23,6 +23,10 @@ use std::path::{Path, PathBuf};
 
 const NOBODY: u32 = 65534;
 
+/// layer names of the sampled cases: plain, dotted (one/two dots, leading, trailing), and names that look like another layer's
+/// metadata or SBOM file (`lyr.toml` owns `lyr.toml/` and `lyr.toml.toml`; `lyr.sbom` owns `lyr.sbom.sbom.cdx.json` …)
+const LAYER_NAMES: [&[u8]; 12] = [b"lyr", b"a", b"my-layer.1", b"lyr.x", b"lyr.x.y", b".hidden", b"lyr.", b"lyr.sbom", b"lyr.toml", b"lyr.sbom.cdx", b"lyr.toml.toml", b"a.b"];
+
 #[derive(Serialize, Deserialize, Clone, Debug)]
 struct V { v: i64 }
 
@@ -189,7 +193,10 @@ fn run_case(f: &[String]) -> String {
     let (api, uid) = (f[0].as_str(), f[1].as_str());
     let Some(name) = unhex(&f[2]).and_then(|b| String::from_utf8(b).ok()) else { return "bad-case".into() };
     let Some(entries) = split_list(&f[3], ";").iter().map(|s| dec_entry(s)).collect::<Option<Vec<Entry>>>() else { return "bad-case".into() };
-    let tmp = tempfile::Builder::new().prefix("c11-").tempdir().unwrap();
+    // a memory-backed file system when there is one (several checks hammer /tmp at the same time); same semantics for everything observed here
+    let shm = Path::new("/dev/shm");
+    let tmp = if std::env::var_os("C11_TMP_DEFAULT").is_none() && shm.is_dir() { tempfile::Builder::new().prefix("c11-").tempdir_in(shm).or_else(|_| tempfile::Builder::new().prefix("c11-").tempdir()).unwrap() }
+        else { tempfile::Builder::new().prefix("c11-").tempdir().unwrap() };
     std::fs::set_permissions(tmp.path(), std::fs::Permissions::from_mode(0o755)).unwrap();
     let root = tmp.path().join("r");
     std::fs::create_dir(&root).unwrap();
@@ -311,6 +318,31 @@ impl Gen<'_> {
     }
 }
 
+/// the target layer's own paths below `layers/` (directory, metadata file, SBOM files) as entry names
+fn own_names(n: &[u8]) -> Vec<Vec<u8>> {
+    let cat = |a: &[u8], b: &[u8]| { let mut v = a.to_vec(); v.extend_from_slice(b); v };
+    vec![n.to_vec(), cat(n, b".toml"), cat(n, b".sbom.cdx.json"), cat(n, b".sbom.spdx.json"), cat(n, b".sbom.syft.json")]
+}
+
+/// a sibling layer `<s>/` (with a file, every second one also a read-only sub-directory), `<s>.toml`, `<s>.sbom.<fmt>.json`
+fn add_sibling(g: &mut Gen, sname: &[u8], k: usize) {
+    let cat = |a: &[u8], b: &[u8]| { let mut v = a.to_vec(); v.extend_from_slice(b); v };
+    if sname.is_empty() || sname == b"." || sname == b".." || sname == b"other" { return; }
+    let reserved = own_names(&g.name);
+    let free = |g: &Gen, e: &[u8]| !reserved.iter().any(|r| r == e) && !g.entries.iter().any(|x| x.path.len() == 2 && x.path[0] == b"layers" && x.path[1] == e);
+    if free(g, sname) {
+        g.d(vec![b"layers".to_vec(), sname.to_vec()], if k % 3 == 1 { 0o700 } else { 0o755 });
+        g.f(vec![b"layers".to_vec(), sname.to_vec(), b"keep".to_vec()], 0o644, b"keep");
+        if k % 2 == 0 { g.d(vec![b"layers".to_vec(), sname.to_vec(), b"d".to_vec()], 0o500); g.f(vec![b"layers".to_vec(), sname.to_vec(), b"d".to_vec(), b"in".to_vec()], 0o400, b"in"); }
+    }
+    let t = cat(sname, b".toml");
+    if free(g, &t) { g.f(vec![b"layers".to_vec(), t], if k % 2 == 0 { 0o644 } else { 0o600 }, b"[types]\nlaunch = true\n"); }
+    for (suf, body) in [("cdx.json", b"{}".as_slice()), ("spdx.json", b"{\"s\":1}"), ("syft.json", b"[]")] {
+        let f = cat(sname, format!(".sbom.{suf}").as_bytes());
+        if free(g, &f) { g.f(vec![b"layers".to_vec(), f], 0o644, body); }
+    }
+}
+
 fn surroundings(g: &mut Gen, layers_mode: u32) {
     let n = g.name.clone();
     let cat = |a: &[u8], b: &[u8]| { let mut v = a.to_vec(); v.extend_from_slice(b); v };
@@ -328,20 +360,16 @@ fn surroundings(g: &mut Gen, layers_mode: u32) {
     g.l(c(&[b"canary", b"back"]), b"../layers".to_vec());
     g.f(c(&[b"cfile"]), 0o640, b"cfile");
     g.d(c(&[b"layers"]), 0o755);
-    // sibling layers: one sharing the target's name as a prefix, one whose name is a prefix of the target's, one unrelated
-    let sx = cat(&n, b"x");
-    g.d(vec![b"layers".to_vec(), sx.clone()], 0o755);
-    g.f(vec![b"layers".to_vec(), sx.clone(), b"keep".to_vec()], 0o644, b"keep");
-    g.d(vec![b"layers".to_vec(), sx.clone(), b"d".to_vec()], 0o500);
-    g.f(vec![b"layers".to_vec(), sx.clone(), b"d".to_vec(), b"in".to_vec()], 0o400, b"in");
-    g.f(vec![b"layers".to_vec(), cat(&sx, b".toml")], 0o644, b"[types]\nlaunch = true\n");
-    g.f(vec![b"layers".to_vec(), cat(&sx, b".sbom.cdx.json")], 0o644, b"{}");
+    // sibling layers whose names path arithmetic on `<name>`, `<name>.toml`, `<name>.sbom.<fmt>.json` could confuse with the
+    // target: the name extended (`<n>x`, `<n>.x`, `<n>.sbom`, `<n>.toml` when that path is free), the name shortened by one byte,
+    // and every stem of the name (`a.b.c` -> `a.b`, `a`; `a.` -> `a`). Each has its own directory, `<s>.toml` and all three
+    // SBOM files; whatever would collide with one of the target's own paths (or is already there) is left out.
+    let mut sibs: Vec<Vec<u8>> = vec![cat(&n, b"x"), cat(&n, b".x"), cat(&n, b".sbom"), cat(&n, b".toml"), cat(&n, b".sbom.cdx")];
+    if n.len() > 1 { sibs.push(n[..n.len() - 1].to_vec()); }
+    let mut stem = n.clone();
+    while let Some(i) = stem.iter().rposition(|b| *b == b'.') { stem.truncate(i); if stem.is_empty() { break; } sibs.push(stem.clone()); }
+    for (k, sname) in sibs.iter().enumerate() { add_sibling(g, sname, k); }
     g.f(vec![b"layers".to_vec(), cat(&n, b".tomlx")], 0o644, b"near miss");
-    if n.len() > 1 { let sp = n[..n.len() - 1].to_vec();
-        g.d(vec![b"layers".to_vec(), sp.clone()], 0o700);
-        g.f(vec![b"layers".to_vec(), sp.clone(), b"p".to_vec()], 0o600, b"p");
-        g.f(vec![b"layers".to_vec(), cat(&sp, b".toml")], 0o600, b"");
-        g.f(vec![b"layers".to_vec(), cat(&sp, b".sbom.syft.json")], 0o644, b"[]"); }
     g.d(c(&[b"layers", b"other"]), 0o700);
     g.l(c(&[b"layers", b"other", b"peer"]), cat(b"../", &n));
     g.f(c(&[b"layers", b"other.toml"]), 0o644, b"[metadata]\nk = 1\n");
@@ -401,6 +429,9 @@ fn generate(tier: &str, seed: u64, emit: &mut dyn FnMut(Case)) {
         for (cname, f) in &contents { idx += 1; let mut r = Rng::for_case(seed ^ 0xC11, idx);
             let shape = Shape { top: "dir", toml: "T", sboms: [true, true, true], layers_mode: 0o755 };
             let mut cs = make_case(api, uid, b"my-layer.1", "directed", &shape, &mut r, 1, Some(&**f)); cs.tags.push(("content".into(), (*cname).into())); emit(cs); }
+        for nm in LAYER_NAMES { for toml in ["T", "~"] { idx += 1; let mut r = Rng::for_case(seed ^ 0xC11, idx);
+            let shape = Shape { top: "dir", toml, sboms: [true, true, true], layers_mode: 0o755 };
+            let mut cs = make_case(api, uid, nm, "directed", &shape, &mut r, 1, Some(&*contents[1].1)); cs.tags.push(("names".into(), "confusable".into())); emit(cs); } }
         if uid == "user" { for lm in [0o555u32, 0o300, 0o600, 0o000, 0o700] { for top in ["dir", "top-out-dir-rel", "absent"] { idx += 1; let mut r = Rng::for_case(seed ^ 0xC11, idx);
             let shape = Shape { top, toml: "T", sboms: [true, false, false], layers_mode: lm };
             emit(make_case(api, uid, b"lyr", "directed", &shape, &mut r, 1, if top == "dir" { Some(&*contents[1].1) } else { None })); } } }
@@ -412,7 +443,7 @@ fn generate(tier: &str, seed: u64, emit: &mut dyn FnMut(Case)) {
         let mut r = Rng::for_case(seed, i);
         let api = *r.pick(&["U", "C", "T"]);
         let uid = if r.chance(2, 5) { "user" } else { "root" };
-        let name: &[u8] = *r.pick(&[b"lyr".as_slice(), b"a", b"my-layer.1"]);
+        let name: &[u8] = *r.pick(&LAYER_NAMES);
         let top = match r.below(100) { 0..=83 => "dir", 84..=95 => *r.pick(&tops[1..9]), _ => "absent" };
         let toml = match r.below(100) { 0..=19 => "~", 20..=34 => "E", 35..=69 => "T", 70..=91 => "G", _ => "B" };
         let sboms = if top == "absent" { [false; 3] } else { [r.chance(1, 3), r.chance(1, 3), r.chance(1, 3)] };
